@@ -967,6 +967,42 @@ func c13gen(c *h.Ctx, yield func(*h.Case)) {
 		}
 		emit("all-shapes mixed sizes", ops...)
 	}
+	// --- full N-ary trees (every inner node has exactly N children): there the id is fully faithful
+	// (c13_tree_full_nary_injective) — all such shapes up to 7 nodes, many placements, full oracle -------
+	for N := 1; N <= 3; N++ {
+		var shapes [][]int
+		for n := 1; n <= c.Pick(7, 9); n++ {
+			for _, sh := range c13trees(n, memo) {
+				ok := true
+				for _, a := range sh {
+					if a != 0 && a != N {
+						ok = false
+					}
+				}
+				if ok {
+					shapes = append(shapes, sh)
+				}
+			}
+		}
+		for rep := 0; rep < c.Pick(3, 30); rep++ {
+			nk := 9
+			ops := []string{edKeys(nk), idRoster(nk)}
+			for _, sh := range shapes {
+				for j := 0; j < 3; j++ {
+					ops = append(ops, c13treeOp(sh, r.Perm(nk)[:len(sh)]))
+				}
+				// two placements that differ in two nodes only
+				p := r.Perm(nk)[:len(sh)]
+				if len(sh) >= 2 {
+					q := append([]int{}, p...)
+					a, b := r.Intn(len(sh)), r.Intn(len(sh))
+					q[a], q[b] = q[b], q[a]
+					ops = append(ops, c13treeOp(sh, p), c13treeOp(sh, q))
+				}
+			}
+			emit(fmt.Sprintf("full-nary N=%d", N), ops...)
+		}
+	}
 	// --- every shape with every placement over FEWER servers than nodes (servers repeat): the tree
 	// id must still separate trees whose pre-order (key, leaf) sequences differ ----------------------
 	for k := 1; k <= c.Pick(2, 3); k++ {
